@@ -25,17 +25,9 @@ def inject(w, fs, kind, pos):
 
 
 def file_state(w, fs, fmt):
-    """What a start-up load would yield right now: the main file if it is intact, else the
-    backup ('?' if neither is loadable, None if there is no file at all)."""
-    main = fs.files.get(P.fname(fmt))
-    bak = fs.files.get(P.fname(fmt) + ".bak")
-    if main is not None and main[0][0] == "GOOD":
-        return main[0][1]
-    if bak is not None and bak[0][0] == "GOOD":
-        return bak[0][1]
-    if main is None and bak is None:
-        return None
-    return "?"
+    """What a start-up load would yield right now - through the real loader (main file, else
+    backup), on a copy of the file system.  () is the empty network."""
+    return P.load_probe(w, fs, fmt)
 
 
 def threaded(fmts):
@@ -79,10 +71,9 @@ def threaded(fmts):
                     w.goal("fault-hit")
                     w.check(pers.need_save is True, "failed save cleared the unsaved flag")
                     now = file_state(w, fs, fmt)
-                    w.check(now == last_good or (now is not None and now != "?" and
-                                                 w.truth(w.or_(w.eq(now, cur),
-                                                               w.eq(now, last_good or ())))),
-                            "failed save left the main file unloadable or mixed")
+                    w.check(w.or_(w.eq(now, cur), w.eq(now, last_good or ())),
+                            "after a failed save a start-up load yields neither the previously "
+                            "saved nor the current state")
                 else:
                     w.check(w.eq(file_state(w, fs, fmt), cur),
                             f"tick {i}: successful save did not persist the current state")
@@ -109,6 +100,7 @@ def asynchronous(fmts):
             w.info = {"format": fmt, "flavour": "asyncio", "failing_tick": bad_tick,
                       "fault": kind, "position": pos}
             seen = {"saves": 0}
+            snaps = [P.snapshot(g.gw.sensors)]
             if bad_tick == 0:
                 inject(w, fs, kind, pos)
 
@@ -116,8 +108,17 @@ def asynchronous(fmts):
                 # called at the i-th asyncio.sleep, i.e. after save attempt i
                 seen["saves"] = i + 1
                 fs.fault_at = None
+                fs.dump_fault = False
+                if i == bad_tick:
+                    now = file_state(w, fs, fmt)
+                    w.check(w.or_(w.eq(now, snaps[i]), w.eq(now, snaps[i - 1] if i else ())),
+                            "after a failed save a start-up load yields neither the previously "
+                            "saved nor the current state")
+                    w.check(pers.need_save is True or w.truth(w.eq(now, snaps[i])),
+                            "failed save cleared the unsaved flag")
                 if i + 1 < TICKS:
                     grow(w, g, i + 1)
+                    snaps.append(P.snapshot(g.gw.sensors))
                     if i + 1 == bad_tick:
                         inject(w, fs, kind, pos)
             fs.on_async_sleep = between
